@@ -30,6 +30,24 @@ CORPUS = [
          new="\th32 ^= h32 >> 12\n\th32 *= prime3\n\th32 ^= h32 >> 16\n\n\treturn h32\n}\n\n// Portable version of ChecksumZero."),
     dict(name="C13-reset-keeps-buffer", kind="break", props=["C13"], file="internal/xxh32/xxh32zero.go",
          old="\txxh.totalLen = 0\n\txxh.bufused = 0\n}", new="\txxh.totalLen = 0\n}"),
+    # ---- C18 ----
+    dict(name="C18-overflow-drops-a-byte", kind="break", props=["C18"], file="compressing_reader.go",
+         old="wr.ov = append(wr.ov, p[count : ]...)", new="wr.ov = append(wr.ov, p[count+1 : ]...)"),
+    dict(name="C18-reset-keeps-overflow-position", kind="break", props=["C18"], file="compressing_reader.go",
+         old="\t\tcopy(out, wr.ov[wr.ovPos : ])\n\t\twr.ov = wr.ov[ : 0]\n\t\twr.ovPos = 0\n\t\twr.dataPos = ovRem",
+         new="\t\tcopy(out, wr.ov[wr.ovPos : ])\n\t\twr.ov = wr.ov[ : 0]\n\t\twr.dataPos = ovRem"),
+    dict(name="C18-drain-from-start", kind="break", props=["C18"], file="compressing_reader.go",
+         old="\t\twr.ovPos += copy(out, wr.ov[wr.ovPos : ])\n\t\treturn false", new="\t\twr.ovPos += copy(out, wr.ov)\n\t\treturn false"),
+    dict(name="C18-flush-forgets-pending", kind="break", props=["C18"], file="compressing_reader.go",
+         old="\t\tif zrd.out.dataPos > 0 {\n\t\t\tn = zrd.out.dataPos\n\t\t\tzrd.out.data = nil\n\t\t\tzrd.out.dataPos = 0\n\t\t\treturn\n\t\t} else {",
+         new="\t\tif zrd.out.dataPos > 1 {\n\t\t\tn = zrd.out.dataPos\n\t\t\tzrd.out.data = nil\n\t\t\tzrd.out.dataPos = 0\n\t\t\treturn\n\t\t} else {"),
+    dict(name="C18-early-return-with-one-byte-of-room", kind="benign", props=["C18"], file="compressing_reader.go",
+         old="if zrd.out.dataPos == len(zrd.out.data) {", new="if zrd.out.dataPos >= len(zrd.out.data)-1 {"),
+    dict(name="C18-no-trailer-on-empty-tail", kind="break", props=["C18"], file="compressing_reader.go",
+         old="\t\t\terr = zrd.frame.CloseW(&zrd.out, 1)\n\t\t\tif err != nil {\n\t\t\t\treturn\n\t\t\t}\n\t\t\tzrd.state = crStateFlushing",
+         new="\t\t\tif rCount > 0 {\n\t\t\t\terr = zrd.frame.CloseW(&zrd.out, 1)\n\t\t\t}\n\t\t\tif err != nil {\n\t\t\t\treturn\n\t\t\t}\n\t\t\tzrd.state = crStateFlushing"),
+    dict(name="C18-benign-reorder-clear", kind="benign", props=["C18"], file="compressing_reader.go",
+         old="\twr.data = nil\n\twr.dataPos = 0\n\twr.ov = wr.ov[ : 0]\n\twr.ovPos = 0\n}", new="\twr.dataPos = 0\n\twr.data = nil\n\twr.ovPos = 0\n\twr.ov = wr.ov[ : 0]\n}"),
     dict(name="C13-benign-rename-local", kind="benign", props=["C13"], file="internal/xxh32/xxh32zero.go",
          old="\tr := len(xxh.buf) - m\n\tif n < r {", new="\troom := len(xxh.buf) - m\n\tif n < room {"),
     dict(name="C13-benign-reorder-lanes", kind="benign", props=["C13"], file="internal/xxh32/xxh32zero.go",
